@@ -4,8 +4,8 @@ import json, os
 V = os.path.dirname(os.path.dirname(os.path.abspath(__file__)))
 T_DEC = "K2 (rendered model text = real generate() text), K3 (model semantics = compiled decoders on generated values, every truncation, boundary words, random words), K4 (Spec.v = generator mirror); property-level search on the real decoders"
 CLAIMED = {
- "C01": ("Coq: C01_counted_array (array reader returns every element in order for any element decoder meeting the trait contract); round trip for whole specifications in progress (XdrProofs.RoundTrip); " + T_DEC,
-         "theorem over the runtime model for all element types/counts; the whole-specification statement is tied by K2/K3/K4 and searched with generated values of every declared type", "DESIGN.md 7 C01"),
+ "C01": ("Coq: C01_roundtrip -- for every specification satisfying the decidable hypothesis sup_b, every declared type, every well-typed value with size-exact array elements, every fuel >= need x, offset, suffix: the emitted decoder returns exactly the value and leaves the cursor after its encoding (mutual induction over the typing derivation; union arm selection by the emitted match patterns proved in UnionProofs); C01_refuted_F1; sup_b evaluated on every corpus specification; " + T_DEC,
+         "compiler-correctness theorem about the model of the emitters + header.rs; the model is tied to the real generator text (K2) and to the compiled decoders (K3) on every run, and the theorem's hypothesis is measured on the corpus", "DESIGN.md 0 and 7 C01"),
  "C02": ("Coq: C02_size_characterised -- for all specifications satisfying wf_size and all well-typed values, emitted wire_size() + 4*nF1 = |RFC 4506 encoding| (induction over the typing derivation), C02_exact, C02_wsz_mult4, C02_refuted_F1; " + T_DEC,
          "the universal statement is a theorem about the model of the emitters and of header.rs; the model is tied to the code on every run", "DESIGN.md 7 C02"),
  "C03": ("Coq: C03_frame for every emitted module, type and input; families are two renderings of one IR body (K2) and both compiled families are run on every input (K3)",
